@@ -4,15 +4,20 @@ Nothing here knows about any property."""
 import json
 
 class Facts:
-    def __init__(self, path):
+    def __init__(self, path, normalise=True):
         with open(path) as f:
             d = json.load(f)
-        import inline
-        known = inline.load_known()
-        d, self.renamed = inline.restore_renames(d, known)
-        d, adt_renames = inline.restore_adt_names(d, inline.load_known_adts())
-        self.renamed = list(self.renamed) + adt_renames
-        self.inlined = inline.inline_new_helpers(d, known)
+        self.renamed, self.inlined = [], []
+        if normalise:
+            # towards the audited function inventory of raqote; a dependency's facts are taken as they are
+            import inline
+            known = inline.load_known()
+            d, self.renamed = inline.restore_renames(d, known)
+            d, adt_renames = inline.restore_adt_names(d, inline.load_known_adts())
+            self.renamed = list(self.renamed) + adt_renames
+            self.inlined = inline.inline_new_helpers(d, known)
+            self.renamed = list(self.renamed) + inline.normalise_internal_iteration(d)
+            self.renamed = list(self.renamed) + inline.dissolve_new_structs(d, inline.load_known_adts())
         self.raw = d
         self.crate = d['crate']
         self.features = d['cfg_features']
@@ -27,6 +32,10 @@ class Facts:
                 self.dups.append(bd.q)
             self.bodies[bd.q] = bd
         self.n_bodies = d['n_bodies']
+        self.outliner = None
+        if normalise:
+            import outline
+            self.renamed = list(self.renamed) + outline.activate(self)
 
     def body(self, q):
         return self.bodies.get(q)
